@@ -113,7 +113,9 @@ def judge(p, go_line):
             return f"{where}: {outcome[:160]}", stats
         if gor != "ok":
             return f"{where}: goroutines left behind after Wait returned ({gor})", stats
-        if cores != "0" or lock != "free":
+        # after an interrupt a core that has not yet seen the cancellation may still spawn (the new core is
+        # listed and terminates at its first poll): the list is only required to be empty after a normal return
+        if lock != "free" or (cores != "0" and not p["fail"]):
             return f"{where}: after Wait: {cores} cores listed, cores lock {lock}", stats
         if not p["fail"]:
             if outcome != "OK":
@@ -128,6 +130,8 @@ def judge(p, go_line):
             for name, val in p["slots"].items():
                 if g.get(H.xhex(name)) != H.sx(val):
                     return f"{where}: global {name} is {g.get(H.xhex(name))}, expected {H.sx(val)}", stats
+            if "counter" not in p["src"]:
+                continue
             cm = re.match(r"\(int (-?\d+)\)", g.get(H.xhex("counter"), ""))
             if not cm or not (min(1, p["incs"]) <= int(cm.group(1)) <= p["incs"]):
                 return f"{where}: counter is {g.get(H.xhex('counter'))} after {p['incs']} increments", stats
@@ -163,7 +167,9 @@ def model_check(p, model_line):
 
 
 def run_batch(ctx, progs, stage, have_model, runs, race=True):
-    lines = [H.spawn_line(p["src"], runs, PROCS, i % 2 == 0) for i, p in enumerate(progs)]
+    # `peek`: in every second run a second host goroutine keeps taking the cores read lock
+    lines = [H.spawn_line(p["src"], runs * (5 if p.get("storm") else 1), PROCS, i % 2 == 0).replace("(main ", "(peek true) (main ", 1)
+             for i, p in enumerate(progs)]
     go = parallel(lambda ls: race_lines(ls, race=race), lines)
     model = core.lean_lines([H.spawn_model_line(p["acts"], [1, 2, 3]) for p in progs]) if have_model else [None] * len(progs)
     ties = 0
@@ -228,13 +234,16 @@ def run(ctx):
     run_batch(ctx, [plain_prog(V20_SRC, v20_lines, 3)], "C17 regression", False, 8, race=race)
     # 3. generated programs
     rng = ctx.rng
-    n = 60 if ctx.tier == "quick" else 600
+    n = 160 if ctx.tier == "quick" else 1500
     progs = []
     for i in range(n):
-        progs.append(H.gen_spawn_program(rng, max_workers=rng.choice([1, 2, 3, 5, 8]), fail=(i % 4 == 3)))
+        if i % 8 == 7:
+            progs.append(H.gen_spawn_storm(rng))
+        else:
+            progs.append(H.gen_spawn_program(rng, max_workers=rng.choice([1, 2, 3, 5, 8]), fail=(i % 4 == 3)))
     if ctx.violations:
         progs = progs[:10]
-    runs = 4 if ctx.tier == "quick" else 8
+    runs = 6 if ctx.tier == "quick" else 10
     for i in range(0, len(progs), 60):
         run_batch(ctx, progs[i:i + 60], "C17", have_model, runs, race=race)
         if len(ctx.violations) >= 5:
@@ -243,7 +252,9 @@ def run(ctx):
     ctx.coverage["rule"] = (
         "programs spawning 1..8 cores (nested up to depth 3) with int/str/list arguments; every core prints its arguments, "
         "mutates its own copy of the list, prints in loops, reads/writes shared scalar globals and a global only it writes; "
-        "every fourth program has a core that throws while others run long loops; each program runs %d times under the race "
+        "every fourth program has a core that throws while others run long loops; every eighth is a 'spawn storm' (3..8 "
+        "short cores each spawning 1..3 more while others finish, 5x the runs); in every second run a second host goroutine "
+        "keeps taking the cores read lock; each program runs %d times under the race "
         "detector with GOMAXPROCS cycling through 1,2,4,8, half of the programs with injected Gosched() in print and in the "
         "context poll; the model runs each program under 3 schedules; non-trivial = distinct program with >= 2 cores" % runs)
     ctx.coverage["traces_validated_against_impl"] = ctx.coverage.get("runs", 0)
